@@ -191,6 +191,10 @@ func AllocLimit(n int)  {}
 func AllocBound(n int) {}
 func Preemptions(n int) {}
 
+// RaceCheck switches the happens-before data-race monitor on for this harness (symbolic runs); a
+// race it finds is confirmed natively by running the harness under the Go race detector.
+func RaceCheck() {}
+
 // Symbolic reports whether the harness runs under the symbolic executor.
 func Symbolic() bool { return false }
 
